@@ -3,7 +3,9 @@
 //!
 //! One case = tables t0..t2 (refsql standard schema), a generated query, a session shape (target / MemTable
 //! partitions), a direct-scan probe (table, projection, filters, limit), and a table-function call. Two
-//! contexts are built: NATIVE (tables registered as the harness provider `Recorder(MemTable)`) and FOREIGN:
+//! contexts are built: NATIVE (tables registered as the harness provider `Recorder(MemTable)`, which answers
+//! `Unsupported` to every filter when the case says the FFI wrapper has no pushdown support, so both contexts
+//! plan alike and only FFI effects can differ) and FOREIGN:
 //!   * every table is `FFI_TableProvider::new(Recorder(MemTable), pushdown, None, ctx, None)` with the public
 //!     `library_marker_id` overridden, converted with `Arc<dyn TableProvider>::from(&ffi)` (asserted to be a
 //!     `ForeignTableProvider`);
@@ -156,6 +158,9 @@ pub struct ScanCall {
 pub struct Recorder {
     inner: MemTable,
     calls: Arc<Mutex<Vec<ScanCall>>>,
+    /// false: answers `Unsupported` for every filter — what a `ForeignTableProvider` created without pushdown
+    /// support answers — so the native and the foreign context plan the same way and only FFI effects differ
+    pushdown: bool,
 }
 
 #[async_trait]
@@ -170,6 +175,9 @@ impl TableProvider for Recorder {
         self.inner.statistics()
     }
     fn supports_filters_pushdown(&self, filters: &[&Expr]) -> DFResult<Vec<TableProviderFilterPushDown>> {
+        if !self.pushdown {
+            return Ok(vec![TableProviderFilterPushDown::Unsupported; filters.len()]);
+        }
         // three classes, so a permutation or truncation of the answer is visible
         Ok(filters
             .iter()
@@ -340,10 +348,10 @@ struct Ctxs {
     foreign_tables: Vec<Arc<dyn TableProvider>>,
 }
 
-fn recorder(t: &Table, v: &Variant) -> Result<(Arc<Recorder>, Arc<Mutex<Vec<ScanCall>>>), String> {
+fn recorder(t: &Table, v: &Variant, pushdown: bool) -> Result<(Arc<Recorder>, Arc<Mutex<Vec<ScanCall>>>), String> {
     let inner = vf_df::mem_table(t, v)?;
     let calls = Arc::new(Mutex::new(vec![]));
-    Ok((Arc::new(Recorder { inner, calls: Arc::clone(&calls) }), calls))
+    Ok((Arc::new(Recorder { inner, calls: Arc::clone(&calls), pushdown }), calls))
 }
 
 fn build(case: &Case, v: &Variant, keep_native_nonnull_defaults: bool) -> Result<Ctxs, String> {
@@ -352,11 +360,11 @@ fn build(case: &Case, v: &Variant, keep_native_nonnull_defaults: bool) -> Result
     let tcp = Arc::clone(&foreign) as Arc<dyn TaskContextProvider>;
     let mut c = Ctxs { native: Arc::clone(&native), foreign: Arc::clone(&foreign), native_calls: vec![], foreign_calls: vec![], native_tables: vec![], foreign_tables: vec![] };
     for t in &case.tables {
-        let (rn, cn) = recorder(t, v)?;
+        let (rn, cn) = recorder(t, v, case.pushdown)?;
         native.register_table(t.name.as_str(), Arc::clone(&rn) as Arc<dyn TableProvider>).map_err(|e| e.to_string())?;
         c.native_calls.push(cn);
         c.native_tables.push(rn);
-        let (rf, cf) = recorder(t, v)?;
+        let (rf, cf) = recorder(t, v, true)?;
         let mut ffi = FFI_TableProvider::new(rf, case.pushdown, None, &tcp, None);
         ffi.library_marker_id = harness_marker;
         let fp: Arc<dyn TableProvider> = (&ffi).into();
@@ -544,8 +552,8 @@ async fn run_async(case: &Case, v: &Variant) -> CaseResult {
         let limit = case.scan.limit.map(|l| l as usize);
         match (tn.supports_filters_pushdown(&frefs), tf.supports_filters_pushdown(&frefs)) {
             (Ok(a), Ok(b)) => {
-                let expect: Vec<TableProviderFilterPushDown> = if case.pushdown { a.clone() } else { vec![TableProviderFilterPushDown::Unsupported; frefs.len()] };
-                if b != expect {
+                // the native provider mirrors the capability the FFI wrapper was created with
+                if b != a {
                     violation!("supports_filters_pushdown({:?}) with pushdown={}: native {a:?} foreign {b:?}", filters.iter().map(|f| f.to_string()).collect::<Vec<_>>(), case.pushdown);
                 }
             }
@@ -708,6 +716,26 @@ async fn run_async(case: &Case, v: &Variant) -> CaseResult {
         (Err(_), Err(_)) => {
             labels.push("query:exec-both-fail".into());
             return CaseResult::pass().labels(labels).nontrivial(nontrivial);
+        }
+        (Ok((_, a)), Err(fe)) if case.foreign_fns => {
+            // known finding? (an empty window frame takes the aggregate's default_value, NULL through the FFI, and lands in
+            // count's non-nullable column) — with count kept native the foreign context must agree
+            let ra = rows_of(&a);
+            if let Ok(diag) = build(case, v, true) {
+                let again = async {
+                    let state = diag.foreign.state();
+                    let logical = state.create_logical_plan(&sql).await?;
+                    let plan = state.create_physical_plan(&logical).await?;
+                    execute_all(&plan, diag.foreign.task_ctx()).await
+                }
+                .await;
+                if let Ok((_, c)) = again {
+                    if same_rows(&ra, &rows_of(&c)).is_none() {
+                        violation!("[sig=udaf-default-value-not-carried] `{sql}`: with every function foreign the execution fails ({}); with count (the aggregates whose default_value is not NULL) kept native the rows agree — ForeignAggregateUDF does not carry default_value (an empty window frame / a decorrelated subquery gets NULL instead of count's 0)", truncate(&fe.to_string(), 300));
+                    }
+                }
+            }
+            violation!("executing `{sql}`: native Ok({}), foreign context Err {}", ra.len(), truncate(&fe.to_string(), 400))
         }
         (a, b) => violation!("executing `{sql}`: native {:?} foreign context {:?}", a.map(|r| r.1.len()).map_err(|e| truncate(&e.to_string(), 400)), b.map(|r| r.1.len()).map_err(|e| truncate(&e.to_string(), 400))),
     };
